@@ -2,7 +2,7 @@
 From Coq Require Import NArith List Bool.
 Import ListNotations.
 From DV Require Import Base.Outcome Base.Bytes Base.Lex Base.Names.
-From DV Require Import C17.Model C17.Proofs C18.Model C14.Gen C14.Model C14.Proofs C14.ProofsDenial C14.ProofsSig C14.ProofsL2H C14.ModelN3 C14.ProofsN3 C14.ModelChain C14.ProofsChain C14.ModelDs C14.ProofsDs C14.ModelTa C14.ProofsTa C14.ModelWild C14.ProofsWild C14.ProofsDname.
+From DV Require Import C17.Model C17.Proofs C18.Model C14.Gen C14.Model C14.Proofs C14.ProofsDenial C14.ProofsSig C14.ProofsL2H C14.ModelN3 C14.ProofsN3 C14.ModelChain C14.ProofsChain C14.ModelDs C14.ProofsDs C14.ModelTa C14.ProofsTa C14.ModelWild C14.ProofsWild C14.ProofsDname C14.ModelNode C14.ProofsNode.
 Local Open Scope N_scope.
 
 Theorem C14_nsec_in_range_spec : forall t o n,
@@ -21,6 +21,10 @@ Theorem C14_nsec3_in_range_spec : forall t o n,
   (hlt o n /\ hlt o t /\ hlt t n) \/ (~ hlt o n /\ (hlt o t \/ hlt t n)).
 Proof. exact nsec3_in_range_spec. Qed.
 Print Assumptions C14_nsec3_in_range_spec.
+
+Theorem C14_nsec3_in_range_strict : forall t o n, nsec3_in_range t o n = true -> t <> o /\ t <> n.
+Proof. exact nsec3_in_range_strict. Qed.
+Print Assumptions C14_nsec3_in_range_strict.
 
 Theorem C14_supported_nsec3_hash_spec : forall h, supported_nsec3_hash h = true <-> h = 1.
 Proof. exact supported_nsec3_hash_spec. Qed.
@@ -208,7 +212,7 @@ Theorem C14_n3_nxdomain_sound : forall H ci cb t gs s ce e,
   nsec3_for_nxdomain H ci cb t gs s = Ok (N3DNE ce, e) ->
   established H ci cb gs s ce /\
   (exists l, suffix_of (l :: ce) t /\ exists g oh, In g gs /\ usable3 ci cb g s oh /\ covers3 H g oh (l :: ce) /\ h_optout g = false) /\
-  exists g oh, In g gs /\ usable3 ci cb g s oh /\ nsec3_in_range (hash_of H g (star_label :: ce)) oh (h_next g) = true /\ h_optout g = false.
+  exists g oh, In g gs /\ usable3 ci cb g s oh /\ covers3 H g oh (star_label :: ce) /\ h_optout g = false.
 Proof. exact n3_nxdomain_sound. Qed.
 Print Assumptions C14_n3_nxdomain_sound.
 
@@ -319,7 +323,7 @@ Theorem C14_wildcard_secure_sound : forall H ci cb sname signer ce ngs n3gs,
   (exists g, In g ngs /\ usable g signer /\ covers sname g /\
              name_eqb ce (nsec_closest_encloser sname (g_owner g) (g_next g)) = true) \/
   (exists c g oh, child_of_ce sname ce = Some c /\ In g n3gs /\ usable3 ci cb g signer oh /\
-             nsec3_in_range (hash_of H g c) oh (h_next g) = true /\ h_optout g = false).
+             covers3 H g oh c /\ h_optout g = false).
 Proof. exact wildcard_secure_sound. Qed.
 Print Assumptions C14_wildcard_secure_sound.
 
@@ -346,3 +350,35 @@ Theorem C14_removed_cname_is_exact_synthesis : forall gs g,
   exists t, a_cname g = Some t /\ exists d, In d gs /\ synthesized_by (a_owner g) t d.
 Proof. exact removed_cname_is_exact_synthesis. Qed.
 Print Assumptions C14_removed_cname_is_exact_synthesis.
+
+(* ---- cached nodes *)
+Theorem C14_anchor_node_never_outlives_sig :
+  anchor_node_limited_by_sig = true -> anchor_node_limited_by_dnskey_ttl = true -> ttl_for_sig_wraps = true ->
+  forall now1 now2 maxv dttl sg,
+  now1 <= st_expiration sg -> st_expiration sg < M32 -> now1 <= now2 ->
+  anchor_still_trusts now1 now2 maxv dttl sg = Ok true ->
+  now2 <= st_expiration sg /\ now2 - now1 <= dttl /\ now2 - now1 <= maxv.
+Proof. exact anchor_node_never_outlives_sig. Qed.
+Print Assumptions C14_anchor_node_never_outlives_sig.
+
+Theorem C14_child_node_never_outlives_sigs :
+  child_node_limited_by_ds = true -> group_ttl_limited_by_sig = true ->
+  child_node_limited_by_dnskey_ttl = true -> child_node_limited_by_dnskey_sig = true -> ttl_for_sig_wraps = true ->
+  forall now1 now2 pl dsttl dss kttl ks,
+  now1 <= st_expiration dss -> st_expiration dss < M32 -> now1 <= st_expiration ks -> st_expiration ks < M32 -> now1 <= now2 ->
+  child_still_trusts now1 now2 pl dsttl dss kttl ks = Ok true ->
+  now2 <= st_expiration dss /\ now2 <= st_expiration ks /\ now2 - now1 <= dsttl /\ now2 - now1 <= kttl /\ now2 - now1 <= pl.
+Proof. exact child_node_never_outlives_sigs. Qed.
+Print Assumptions C14_child_node_never_outlives_sigs.
+
+Theorem C14_anchor_node_outlives_sig_refuted : anchor_node_limited_by_sig = false ->
+  exists now1 now2 maxv dttl sg, now1 <= st_expiration sg /\ st_expiration sg < now2 /\
+    anchor_still_trusts now1 now2 maxv dttl sg = Ok true.
+Proof. exact anchor_node_outlives_sig_refuted. Qed.
+Print Assumptions C14_anchor_node_outlives_sig_refuted.
+
+Theorem C14_ds_reply_insecure_only_with_proof : forall H ci cb t cn gs,
+  ds_reply_decision H ci cb t cn gs = Ok InsecureDelegation ->
+  cn = NoCname /\ exists g, In g gs /\ (nsec_no_ds_proof t g \/ nsec3_no_ds_proof H ci cb t g).
+Proof. exact ds_reply_insecure_only_with_proof. Qed.
+Print Assumptions C14_ds_reply_insecure_only_with_proof.
